@@ -215,7 +215,9 @@ func (s *socket) onPacket(data *packet.Packet) {
 
 	switch data.Type {
 	case packet.PING:
-		if s.Transport().Protocol() != 3 {
+		// the heartbeat direction belongs to the session's revision; an upgrade
+		// transport may have been opened with a different EIO value
+		if s.protocol != 3 {
 			s.onError(errors.New("invalid heartbeat direction").Err())
 			return
 		}
@@ -224,7 +226,7 @@ func (s *socket) onPacket(data *packet.Packet) {
 		s.sendPacket(packet.PONG, nil, nil, nil)
 		s.Emit("heartbeat")
 	case packet.PONG:
-		if s.Transport().Protocol() == 3 {
+		if s.protocol == 3 {
 			s.onError(errors.New("invalid heartbeat direction").Err())
 			return
 		}
